@@ -657,4 +657,8 @@ func (c *context) Reset(r *http.Request, w http.ResponseWriter) {
 	for i := 0; i < len(c.pvalues); i++ {
 		c.pvalues[i] = ""
 	}
+	// Routes with more path parameters may have been added after this (pooled) context was created
+	if c.echo != nil && c.echo.maxParam != nil && len(c.pvalues) < *c.echo.maxParam {
+		c.pvalues = make([]string, *c.echo.maxParam)
+	}
 }
